@@ -272,7 +272,13 @@ func checkC09(r *Run) error {
 		// primitives: under every option set both decoders satisfy the same pointwise reference decoding (DEC)
 		r.Dec = true
 		r.byteTheory = false
-		err = r.decoders(func(s *basis.Schema) bool { return structOnlySchema(s) && small(s) }, r.optsFor(true), func(key string) bool {
+		decSmall := func(s *basis.Schema) bool {
+			if r.Tier == "thorough" {
+				return structOnlySchema(s) && small(s)
+			}
+			return s.Name == "sprimsnd" || s.Name == "sarr2" || s.Name == "srec2"
+		}
+		err = r.decoders(decSmall, r.optsFor(true), func(key string) bool {
 			return strings.HasSuffix(key, ".UnmarshalBebop") || strings.HasSuffix(key, ".DecodeBebop") || isMake(key)
 		})
 		r.Dec = false
